@@ -14,7 +14,7 @@ pub const RULE: &str = "case = one sampling run: dataset of 2..60 DNA or protein
 pub const REQUIRED: &[&str] = &[
     "alphabet.dna", "alphabet.protein", "mode.oops", "mode.zoops", "arm.dispatch[generic]", "arm.dispatch[sse2]",
     "arm.dispatch[avx2]", "arm.dispatch[auto]", "steps.checked", "start_changed", "zoops.inclusion", "zoops.rejection",
-    "zoops.inactive_holdout", "data.masked_sequence", "data.sparse_background", "data.sampled_striped_sequences", "class.wrap_exceeds_width", "param.temperature=0", "param.temperature!=1", "data.hand_built_taller_matrix", "twin.compared", "dispatch_forced.generic",
+    "zoops.inactive_holdout", "data.masked_sequence", "data.sparse_background", "data.very_long_sequence", "data.sampled_striped_sequences", "class.wrap_exceeds_width", "param.temperature=0", "param.temperature!=1", "data.hand_built_taller_matrix", "twin.compared", "dispatch_forced.generic",
     "dispatch_forced.sse2", "dispatch_forced.avx2",
 ];
 
@@ -319,6 +319,14 @@ fn run_case<A: Alphabet>(case: u64, rng: &mut Rng, rep: &mut Report, alpha: &str
     let width = if rng.chance(0.3) { rng.range(2, 6) } else { rng.range(2, 30) };
     let flavour = rng.below(4).min(2 + (rng.below(2))) % 3;
     let mut seqs = gen_dataset(rng, rep, k, width, flavour);
+    if case % 24 == 5 {
+        // a chromosome-sized member: one symbol occurs more than 65535 times in it
+        let dom = rng.below(k - 1) as u8;
+        let l = rng.range(90_000, 110_000);
+        let v = rng.below(seqs.len());
+        seqs[v] = (0..l).map(|_| if rng.chance(0.8) { dom } else { rng.below(k - 1) as u8 }).collect();
+        rep.cover("data.very_long_sequence");
+    }
     let sampled = if rng.chance(0.2) {
         // replace the dataset by sequences drawn with StripedSequence::sample; the linear model is read
         // back through the public Index of each striped sequence
